@@ -186,6 +186,9 @@ LIBRARY = [
     ("Optional::filter_if", "hydro_lang/src/live_collections/optional.rs", r"", "filter_if"),
     ("Optional::is_some", "hydro_lang/src/live_collections/optional.rs", r"", "is_some"),
     ("Optional::into_singleton", "hydro_lang/src/live_collections/optional.rs", r"", "into_singleton"),
+    ("Optional::or", "hydro_lang/src/live_collections/optional.rs", r"", "or"),
+    ("Optional::unwrap_or", "hydro_lang/src/live_collections/optional.rs", r"", "unwrap_or"),
+    ("Optional::zip", "hydro_lang/src/live_collections/optional.rs", r"", "zip"),
     ("Optional::zip_inside_tick", "hydro_lang/src/live_collections/optional.rs", r"", "zip_inside_tick"),
     ("Optional::or_inside_tick", "hydro_lang/src/live_collections/optional.rs", r"", "or_inside_tick"),
     ("Tick::cycle", "hydro_lang/src/location/tick.rs", r"", "cycle"),
